@@ -2,7 +2,7 @@
    initialize / is_inactive on top of the real client-connection buffer) run by the real
    HttpProtocolHandler.run (threaded) and by the real Threadless._run_forever (local executor),
    compared with threaded_run and run_forever instantiated with the same scripts. *)
-From PM Require Import Lib.Bytes Lib.ZDict Exec.Threadless Exec.ThreadlessOld Exec.ThreadlessCases Exec.Modes Exec.ModesFacts Exec.FdTable Exec.FdTableCases Exec.Dispatch.
+From PM Require Import Lib.Bytes Lib.ZDict Exec.Threadless Exec.ThreadlessOld Exec.ThreadlessCases Exec.Modes Exec.ModesFacts Exec.FdTable Exec.FdTableCases Exec.Dispatch Exec.DispatchLocks.
 From Coq Require Import ZArith.
 
 Inductive hcall := HInit | HGet | HHandle (r w : list fd) | HShutdown.
@@ -207,8 +207,79 @@ Definition check_dcase (c : dcase) : bool :=
       end
   end.
 
-(* C17 compares driver runs, the descriptor hand-off (shared with C10), executor schedules (remote endings) and the
-   dispatch protocol *)
-Inductive c17case := C17M (c : mcase) | C17F (c : fcase) | C17X (c : xcase) | C17D (c : dcase).
+(* the lock discipline of the dispatch: for the same runs of the real Acceptor._work + delegate_work_to_pool the harness
+   records every message written to a worker's pipe as (pipe index, descriptor message?, per-worker locks held at that
+   moment) and, per descriptor, (pipe index, pid given to send_handle).  Compared here with the interleaving model of
+   Exec/DispatchLocks.v: the threads `work` (the model of _work) starts for these connections, run one after the other
+   (the harness runs each dispatcher thread synchronously); an observed write = the model thread's pipe and the model's
+   lock table when it performs that write.  The harness pool: worker k has pid 100 + k, pipe k and lock k.  Also
+   checked: all model threads return, and the pipes they leave equal those of Dispatch.dispatch_all. *)
+Inductive lcase := CDispatchLocks (unix : bool) (idd nw : N) (conns : list (option N * fd))
+                                  (writes : list (N * bool * list N)) (pid_of : list (N * N)).
+
+Definition harness_pool (nw : N) : pool :=
+  shared_pool nw (map (fun k => 100 + N.of_nat k) (seq 0 (N.to_nat nw))) (seq 0 (N.to_nat nw)).
+
+Fixpoint conns_of (idd total : N) (conns : list (option N * fd)) : list conn :=
+  match conns with
+  | [] => []
+  | (a, f) :: rest => mk_conn idd total a f :: conns_of idd (total + 1) rest
+  end.
+
+(* what thread tid is about to write, and under which locks *)
+Definition observe (ths : list thread) (tid : nat) (g : gstate) : option (N * bool * list N) :=
+  match nth_error ths tid, nth_error (g_pcs g) tid with
+  | Some th, Some PLocked =>
+      if t_unix th then None else Some (N.of_nat (t_queue th), false, map (fun e => N.of_nat (fst e)) (g_held g))
+  | Some th, Some PAddrSent => Some (N.of_nat (t_queue th), true, map (fun e => N.of_nat (fst e)) (g_held g))
+  | _, _ => None
+  end.
+
+Fixpoint run_obs (ths : list thread) (sched : list nat) (g : gstate) : list (N * bool * list N) * gstate :=
+  match sched with
+  | [] => ([], g)
+  | tid :: rest =>
+      match step ths tid g with
+      | None => run_obs ths rest g
+      | Some g' =>
+          let (obs, gf) := run_obs ths rest g' in
+          (match observe ths tid g with Some o => o :: obs | None => obs end, gf)
+      end
+  end.
+
+Definition msg_eqb (a b : msg) : bool :=
+  match a, b with
+  | MAddr x, MAddr y => option_eqb N.eqb x y
+  | MHandle x, MHandle y => (x =? y)%Z
+  | _, _ => false
+  end.
+
+Definition write_eqb (a b : N * bool * list N) : bool :=
+  (fst (fst a) =? fst (fst b)) && Bool.eqb (snd (fst a)) (snd (fst b)) && list_eqb N.eqb (snd a) (snd b).
+
+Definition check_lcase (c : lcase) : bool :=
+  match c with
+  | CDispatchLocks unix idd nw conns writes pid_of =>
+      match spawn_all work nw (harness_pool nw) unix (conns_of idd 0 conns) with
+      | Err _ => false                         (* the harness records lock cases only when nothing raised *)
+      | Ok ths =>
+          let (obs, g) := run_obs ths (seq_schedule (length ths)) (init_gstate (N.to_nat nw) (length ths)) in
+          all_done g
+          && list_eqb write_eqb obs writes
+          && list_eqb (fun x y : N * N => (fst x =? fst y) && (snd x =? snd y))
+                      (map (fun th => (N.of_nat (t_queue th), t_pid th)) ths) pid_of
+          && match dispatch_all unix idd nw 0 conns (repeat [] (N.to_nat nw)) with
+             | Ok pipes => list_eqb (list_eqb msg_eqb) pipes (g_pipes g)
+             | Err _ => false
+             end
+      end
+  end.
+
+(* C17 compares driver runs, the descriptor hand-off (shared with C10), executor schedules (remote endings), the
+   dispatch protocol and its lock discipline *)
+Inductive c17case := C17M (c : mcase) | C17F (c : fcase) | C17X (c : xcase) | C17D (c : dcase) | C17L (c : lcase).
 Definition check_c17 (c : c17case) : bool :=
-  match c with C17M m => check_mcase m | C17F f => check_fcase f | C17X x => check_case x | C17D d => check_dcase d end.
+  match c with
+  | C17M m => check_mcase m | C17F f => check_fcase f | C17X x => check_case x | C17D d => check_dcase d
+  | C17L l => check_lcase l
+  end.
